@@ -17,6 +17,7 @@ def main(argv=None):
     ap.add_argument("--pin", default=None, help="dev tool: name of a regress file to create")
     ap.add_argument("--when", default=None)
     ap.add_argument("--test", default="*")
+    ap.add_argument("--status", default="ok,fail")
     a = ap.parse_args(argv)
     tier = a.tier or env.TIER
     if tier not in ("quick", "thorough"):
@@ -34,7 +35,7 @@ def main(argv=None):
     from .case import StaleReplay
 
     if a.pin:
-        return 0 if engine.pin_case(prop, a.test, a.when, a.pin) else 2
+        return 0 if engine.pin_case(prop, a.test, a.when, a.pin, statuses=tuple(a.status.split(','))) else 2
     if a.replay:
         try:
             out, case, fid = engine.replay_file(prop, a.replay, engine.load_known(pid))
